@@ -4200,9 +4200,16 @@ func (c *Checker) checkMacroBoundaryNode(node *ast.MacroBoundaryNode) ast.Expres
 		return node
 	}
 
+	// the expansion of a macro is hygienic again,
+	// even when the macro has been called inside of an unhygienic node
+	prevUnhygienic := c.isUnhygienic()
+	c.setUnhygienic(false)
+
 	c.pushMacroBoundaryLocalEnv()
 	resultType, _ := c.checkStatements(node.Body, false)
 	c.popLocalEnv()
+
+	c.setUnhygienic(prevUnhygienic)
 
 	node.SetType(resultType)
 	return node
